@@ -26,6 +26,9 @@ pub struct VarDctSpec {
     pub num_hf_presets: u32,
     pub skip_adaptive_lf_smoothing: bool,
     pub seed: u64,
+    /// the LF coefficients come from the preceding LF frame (level 1) instead of the LF groups
+    #[serde(default)]
+    pub use_lf_frame: bool,
 }
 
 impl VarDctSpec {
@@ -43,6 +46,7 @@ impl VarDctSpec {
             num_hf_presets: 1,
             skip_adaptive_lf_smoothing: rng.chance(1, 2),
             seed: rng.next_u64(),
+            use_lf_frame: false,
         }
     }
 }
